@@ -487,6 +487,8 @@ func realHasherWitness(c *mc.Ctx) {
 	}
 	cl := mk(uint64(found))
 	c.Set("real_hasher_witness", map[string]interface{}{"hasher": "blake2b", "caller": hex.EncodeToString(cl), "random_seed": string(randomSeed)})
+	var ids []string
+	defer func() { c.Set("real_hasher_identifiers", ids) }()
 	for i := 0; i < 2; i++ {
 		first := ""
 		if i == 1 {
@@ -498,6 +500,7 @@ func realHasherWitness(c *mc.Ctx) {
 			c.Nontrivial("real-hasher-second-issue")
 		}
 		c.Outcome(fmt.Sprintf("real-hasher %s %s", res.rc, res.id))
+		ids = append(ids, res.id)
 		for _, f := range res.findings {
 			f.detail["history"] = fmt.Sprintf("issue(ABC) twice by caller %s with the production blake2b hasher and random seed %q", hex.EncodeToString(cl), randomSeed)
 			c.ViolationR(f.sig, 1<<30, f.detail, nil)
